@@ -56,6 +56,21 @@ def from_model(h):
     return ops
 
 
+def gzip_looking(rng, count):
+    """directed: blobs whose own bytes are a gzip file / start with the gzip magic, uploaded as opaque bytes (no
+    Content-Encoding) under names and mime types for which the forwarding client compresses - every copy must decode
+    to the same bytes"""
+    out = []
+    combos = [(d, mime, name) for d in ("z", "Z") for mime in ("y1", "y5", "y6", "y0") for name in ("n0", "n1", "n3", "n6")]
+    for d, mime, name in rng.sample(combos, min(count, len(combos))):
+        n = rng.choice([2, 2, 3])
+        ops = [upload(rng.randrange(n), 1, "c1", d, name=name, mime=mime),
+               upload(rng.randrange(n), 2, "c1", rng.choice(["a", "L"]), name=name, mime=mime),
+               upload(rng.randrange(n), 2, "c1", d, name=name, mime=mime, pairs="p1")]
+        out.append((n, rng.choice(REPL[n]), "", ops))
+    return out
+
+
 def random_hists(rng, count, length):
     """G4: seeded random executions over the driver's full token universe (inputs only)"""
     out = []
@@ -68,7 +83,7 @@ def random_hists(rng, count, length):
             if x < 0.55:
                 pool = sorted(mounted) if mounted and rng.random() < 0.92 else sorted(member)
                 ops.append(upload(rng.choice(pool), rng.choice([1, 1, 2]), "c2" if rng.random() < 0.06 else "c1",
-                                  rng.choice(["a", "a", "b", "j", "L", "r", "z", "p", "h", "e"]),
+                                  rng.choice(["a", "a", "b", "j", "L", "r", "z", "Z", "p", "h", "e"]),
                                   name=rng.choice(["n0", "n0", "n1", "n2", "n3", "n4", "n5", "nL", "n6"]),
                                   mime=rng.choice(["y0", "y0", "y1", "y2", "y3", "y4", "y5", "y6"]),
                                   pairs=rng.choice(["p0", "p0", "p1", "p2"]), ts=rng.choice(["none", "none", "old", "zero"]),
@@ -226,8 +241,9 @@ def run(ctx):
         scripts.append((3, rng.choice(REPL[3]), "", from_model(h)))
     scripts += random_hists(rng, 1000 if th else 120, 12)
     scripts += retry_patterns(rng, 400 if th else 40)
+    scripts += gzip_looking(rng, 32 if th else 12)
     ctx.notes["generated"] = {"witness_n2": len(h2), "witness_n3": len(h3), "random": 1000 if th else 120,
-                              "retry_patterns": 400 if th else 40}
+                              "retry_patterns": 400 if th else 40, "gzip_looking": 32 if th else 12}
 
     script = os.path.join(ctx.out, "script.ndjson")
     if ctx.replay:
